@@ -208,12 +208,22 @@ class Connection:
         if com_change_user.connect_attrs:
             self.client_connect_attrs = com_change_user.connect_attrs
 
-        await self.authenticate(
-            username=com_change_user.username,
-            auth_response=com_change_user.auth_response,
-            client_plugin_name=com_change_user.client_plugin,
-            connect_attrs=com_change_user.connect_attrs,
-        )
+        # Re-authenticating is not a statement: KILL QUERY must not abort it half-way
+        self._executing = False
+        try:
+            await self.authenticate(
+                username=com_change_user.username,
+                auth_response=com_change_user.auth_response,
+                client_plugin_name=com_change_user.client_plugin,
+                connect_attrs=com_change_user.connect_attrs,
+            )
+        except AuthenticationFailed:
+            raise
+        except Exception as e:
+            # An exchange that did not complete must not leave the connection usable
+            logger.exception(e)
+            await self.stream.write(self.error(msg=e))
+            raise AuthenticationFailed() from e
 
         await self.session.reset()
 
